@@ -195,11 +195,30 @@ def reports (d : Document) (o : Opts) (m : Mode) (ob : Obs) : List SegReport :=
     { name := seg.name, inDomain := wellFormed seg items,
       expected := sortP (expected d o seg), found := sortP found }
 
+/-- partial mode: the sections of an emitted segment whose partial object the main script does not place exactly once
+(one statement `<folder>/<segment>.o(<section>)` between the segment's ROM start and ROM size symbols per section of
+its two lists). A segment missing from the main script is missing with all its sections. -/
+def unplacedPartial (d : Document) (o : Opts) (ob : Obs) : List (Str × Str) :=
+  let st := d.settings.style
+  ((emittedSegments d o).map fun seg =>
+    let slice := segmentSlice st seg ob.lines
+    let obj := seg.name ++ c!".o"
+    ((seg.allocSections ++ seg.noloadSections).filter fun sec =>
+      (slice.filter fun l => match l with
+        | .input _ p none s _ => decide (s = sec) && (decide (p = obj) || endsWith (c!"/" ++ obj) p)
+        | _ => false).length ≠ 1).map fun sec => (seg.name, sec)).flatten
+
 def holds (d : Document) (o : Opts) (m : Mode) (ob : Obs) : Bool × Bool × String :=
   let rs := reports d o m ob
   let inDom := rs.all (·.inDomain)
   match rs.find? (fun r => r.expected ≠ r.found) with
-  | none => (true, inDom, "")
+  | none =>
+    (match m, unplacedPartial d o ob with
+     | .partialLink, (sn, sec) :: _ =>
+       if inDom && !d.settings.singleSegmentMode then
+         (false, inDom, s!"main script of partial mode: the partial object of segment {String.ofList sn} is not placed exactly once for {String.ofList sec}")
+       else (true, inDom, "")
+     | _, _ => (true, inDom, ""))
   | some r =>
     let missing := r.expected.filter (fun p => p ∉ r.found)
     let extra := r.found.filter (fun p => p ∉ r.expected)
